@@ -122,6 +122,23 @@ func init() {
 				{File: "internal/agent/relay_table.go", Old: "import (\n\t\"sync\"\n", New: "import (\n\t\"maps\"\n\t\"sync\"\n"},
 				{File: "internal/agent/relay_table.go", Old: "\tfor id, e := range r.byUpstream {\n\t\tif e.UpstreamPeer == peer || e.DownstreamPeer == peer {\n\t\t\tdelete(r.byUpstream, id)\n\t\t\tdelete(r.byDownstream, e.DownstreamID)\n\t\t\tn++\n\t\t}\n\t}\n", New: "\tmaps.DeleteFunc(r.byUpstream, func(_ uint64, e *relayEntry) bool {\n\t\tif e.UpstreamPeer != peer && e.DownstreamPeer != peer {\n\t\t\treturn false\n\t\t}\n\t\tn++\n\t\treturn true\n\t})\n"},
 			}},
+			{Name: "seed class C17-f: UDP open acknowledged before the association is registered", ExpectRule: "C17.R4", ExpectKey: "before the open ack", Edits: []Edit{
+				{File: "internal/udp/handler.go", Old: "\t// Register association\n\th.mu.Lock()\n\th.associations[streamID] = assoc\n\th.byRequestID[open.RequestID] = assoc\n\th.mu.Unlock()\n", New: ""},
+				{File: "internal/udp/handler.go", Old: "\tassoc.SetOpen()\n", New: "\th.mu.Lock()\n\th.associations[streamID] = assoc\n\th.byRequestID[open.RequestID] = assoc\n\th.mu.Unlock()\n\tassoc.SetOpen()\n"},
+			}},
+			{Name: "seed class C17-e: per-peer reference counter decremented by the idempotent Delete", ExpectRule: "C17.R2", ExpectKey: "decrements peerRefs only for a present entry", Edits: []Edit{
+				{File: "internal/agent/relay_table.go", Old: "\tbyDownstream map[uint64]*relayEntry\n}\n", New: "\tbyDownstream map[uint64]*relayEntry\n\tpeerRefs     map[identity.AgentID]int\n}\n"},
+				{File: "internal/agent/relay_table.go", Old: "\t\tbyDownstream: make(map[uint64]*relayEntry),\n", New: "\t\tbyDownstream: make(map[uint64]*relayEntry),\n\t\tpeerRefs:     make(map[identity.AgentID]int),\n"},
+				{File: "internal/agent/relay_table.go", Old: "\tr.byDownstream[e.DownstreamID] = e\n\tr.mu.Unlock()\n", New: "\tr.byDownstream[e.DownstreamID] = e\n\tr.peerRefs[e.UpstreamPeer]++\n\tr.mu.Unlock()\n"},
+				{File: "internal/agent/relay_table.go", Old: "\tdelete(r.byUpstream, e.UpstreamID)\n\tdelete(r.byDownstream, e.DownstreamID)\n\tr.mu.Unlock()\n", New: "\tdelete(r.byUpstream, e.UpstreamID)\n\tdelete(r.byDownstream, e.DownstreamID)\n\tr.peerRefs[e.UpstreamPeer]--\n\tr.mu.Unlock()\n"},
+			}},
+			{Name: "rewrite: per-peer reference counter decremented only after a presence test", Edits: []Edit{
+				{File: "internal/agent/relay_table.go", Old: "\tbyDownstream map[uint64]*relayEntry\n}\n", New: "\tbyDownstream map[uint64]*relayEntry\n\tpeerRefs     map[identity.AgentID]int\n}\n"},
+				{File: "internal/agent/relay_table.go", Old: "\t\tbyDownstream: make(map[uint64]*relayEntry),\n", New: "\t\tbyDownstream: make(map[uint64]*relayEntry),\n\t\tpeerRefs:     make(map[identity.AgentID]int),\n"},
+				{File: "internal/agent/relay_table.go", Old: "\tr.byDownstream[e.DownstreamID] = e\n\tr.mu.Unlock()\n", New: "\tr.byDownstream[e.DownstreamID] = e\n\tr.peerRefs[e.UpstreamPeer]++\n\tr.mu.Unlock()\n"},
+				{File: "internal/agent/relay_table.go", Old: "\tdelete(r.byUpstream, e.UpstreamID)\n\tdelete(r.byDownstream, e.DownstreamID)\n\tr.mu.Unlock()\n", New: "\tif r.byUpstream[e.UpstreamID] == e {\n\t\tr.unindexLocked(e)\n\t}\n\tr.mu.Unlock()\n"},
+				{File: "internal/agent/relay_table.go", Old: "// LookupBoth returns the entries", New: "func (r *relayTable) unindexLocked(e *relayEntry) {\n\tdelete(r.byUpstream, e.UpstreamID)\n\tdelete(r.byDownstream, e.DownstreamID)\n\tr.peerRefs[e.UpstreamPeer]--\n}\n\n// LookupBoth returns the entries"},
+			}},
 			{Name: "rewrite: disconnect cleanup loops over the relay tables", Edits: []Edit{
 				{File: "internal/agent/agent.go", Old: "\t// Clean up relay streams involving this peer\n\ta.cleanupRelaysForPeer(peerID)\n", New: "\tfor _, tab := range []*relayTable{a.tcpRelay, a.udpRelay, a.icmpRelay} {\n\t\ttab.DeleteByPeer(peerID)\n\t}\n"},
 			}},
@@ -301,6 +318,8 @@ func runC17(p *kit.Program, r *kit.Report) {
 	c17R4(p, r, rt, agent)
 	c17R4Handlers(p, r)
 	c17R4RelaySide(p, r, cx, rt)
+	c17R4AckOrder(p, r)
+	c17R2Derived(p, r, rt)
 	r.Note("R5 (dependency): DeleteByPeer walks one index and relies on 'every entry is in both indices'; that invariant additionally needs C16.R3 (no clobbering insertion), reported by C16. Counter drift caused by inserting over an existing key is likewise C16.R3.")
 }
 
@@ -1417,6 +1436,229 @@ func c17R4(p *kit.Program, r *kit.Report, rt, agent *types.Named) {
 
 // c17R4Handlers: a record registered in a per-connection table is removed again on every path on
 // which a later call of that function reported an error (the acknowledgement could not be sent).
+// c17R4AckOrder: the record of a tunnel is in its table before the message that lets the peer
+// refer to the tunnel — the open acknowledgement — is sent. In every function that both
+// registers a record in a per-connection handler table (the insertion itself or a call of the
+// helper that inserts) and sends an …OpenAck for it, the registration dominates the send:
+// otherwise a CLOSE/RESET the peer sends right after the ack finds nothing, and the record
+// registered afterwards is never closed.
+func c17R4AckOrder(p *kit.Program, r *kit.Report) {
+	isOpenAck := func(c ssa.CallInstruction) bool {
+		name := kit.CalleeOf(c).Name
+		return strings.HasPrefix(name, "Write") && strings.HasSuffix(name, "OpenAck")
+	}
+	type pair struct {
+		fn       *ssa.Function
+		table    string
+		ack      ssa.CallInstruction
+		regFirst bool
+	}
+	var pairs []pair
+	for _, ev := range c16ResolveTablesQuiet(p) {
+		if ev.T.Class != c16PerConn || ev.T.Type == "relayTable" {
+			continue
+		}
+		regs := map[*ssa.Function][]ssa.Instruction{}
+		for _, ia := range p.FieldAccessesOfKind(ev.Field, kit.MapInsert) {
+			regs[ia.Fn] = append(regs[ia.Fn], ia.Instr)
+			for _, cs := range p.StaticCallers(kit.TopLevel(ia.Fn)) {
+				if _, isGo := cs.(*ssa.Go); !isGo {
+					regs[cs.Parent()] = append(regs[cs.Parent()], cs)
+				}
+			}
+		}
+		for fn, rs := range regs {
+			for _, c := range kit.Calls(fn) {
+				if !isOpenAck(c) {
+					continue
+				}
+				first := false
+				for _, reg := range rs {
+					if kit.Precedes(reg, c) {
+						first = true
+					}
+				}
+				pairs = append(pairs, pair{fn, ev.Name, c, first})
+			}
+		}
+	}
+	sort.Slice(pairs, func(i, j int) bool {
+		if kit.FuncName(pairs[i].fn) != kit.FuncName(pairs[j].fn) {
+			return kit.FuncName(pairs[i].fn) < kit.FuncName(pairs[j].fn)
+		}
+		return pairs[i].ack.Pos() < pairs[j].ack.Pos()
+	})
+	agree := 0
+	for _, pr := range pairs {
+		if pr.regFirst {
+			agree++
+		}
+	}
+	r.Count("registration_and_open_ack_pairs", len(pairs))
+	ord := map[string]int{}
+	for _, pr := range pairs {
+		key := kit.FuncName(pr.fn) + " " + c17Ord(ord, "registers in "+pr.table+" before the open ack")
+		switch {
+		case pr.regFirst:
+			r.OK("C17.R4", key, p.Pos(pr.ack.Pos()), "the registration dominates the %s call", kit.CalleeOf(pr.ack).Name)
+		case agree > 0:
+			r.Violation("C17.R4", key, p.Pos(pr.ack.Pos()), "%s is sent on a path on which the record is not yet in %s (unlike %d sibling handler(s)): a CLOSE or RESET the peer sends right after the ack finds no record, the record registered afterwards is never closed and keeps its share of the connection count", kit.CalleeOf(pr.ack).Name, pr.table, agree)
+		default:
+			r.Infof("C17.R4", key, p.Pos(pr.ack.Pos()), "no handler registers before its open ack: no order to agree on")
+		}
+	}
+}
+
+// c17R2Derived: a derived counter of the relay table (a map with a numeric element type, e.g.
+// references per peer) that is decremented together with the removal of an entry from the
+// indices stays equal to what it summarises only if the removal really happened. A helper that
+// deletes an entry it is handed from the indices and decrements such a counter must therefore be
+// called with an entry known to be in the table: looked up / ranged over in the same function, or
+// guarded by a presence test — never with an entry that merely was passed in from outside
+// (Delete(e) is idempotent on the indices, not on the counter). Otherwise the counter
+// under-counts a peer and a clean-up gated by it skips the table.
+func c17R2Derived(p *kit.Program, r *kit.Report, rt *types.Named) {
+	idx, entry := c17RelayIndexes(rt)
+	var derived []*types.Var
+	for _, f := range kit.StructFields(rt) {
+		if m, ok := f.Type().Underlying().(*types.Map); ok {
+			if b, isB := m.Elem().Underlying().(*types.Basic); isB && b.Info()&types.IsNumeric != 0 {
+				derived = append(derived, f)
+			}
+		}
+	}
+	r.Count("relay_derived_counter_fields", len(derived))
+	if len(derived) == 0 {
+		return
+	}
+	methods := map[*ssa.Function]bool{}
+	for _, m := range p.Methods("internal/agent", "relayTable") {
+		methods[m] = true
+	}
+	// functions that decrement a derived counter, directly or through relayTable methods (2 levels)
+	dec := map[*ssa.Function]string{}
+	for _, d := range derived {
+		for _, acc := range p.FieldAccessesOfKind(d, kit.MapDelete, kit.MapInsert) {
+			if acc.Kind == kit.MapInsert {
+				b, ok := acc.Val.(*ssa.BinOp)
+				if !ok || b.Op != token.SUB {
+					continue
+				}
+			}
+			dec[kit.TopLevel(acc.Fn)] = d.Name()
+		}
+	}
+	for round := 0; round < 2; round++ {
+		for f, d := range dec {
+			for _, site := range p.StaticCallers(f) {
+				if methods[kit.TopLevel(site.Parent())] {
+					if _, have := dec[kit.TopLevel(site.Parent())]; !have {
+						dec[kit.TopLevel(site.Parent())] = d
+					}
+				}
+			}
+		}
+	}
+	// helpers that delete an entry PARAMETER from the indices and decrement
+	type helper struct {
+		fn    *ssa.Function
+		param int
+	}
+	var work []helper
+	for _, f := range idx {
+		for _, acc := range p.FieldAccessesOfKind(f, kit.MapDelete) {
+			if _, isDec := dec[acc.Fn]; !isDec {
+				continue
+			}
+			root, _, _ := c17KeyRoot(acc.Key, entry)
+			if pa, ok := root.(*ssa.Parameter); ok {
+				work = append(work, helper{acc.Fn, c39ParamIndex(acc.Fn, pa)})
+			}
+		}
+	}
+	isIndexEntry := func(v ssa.Value) bool {
+		for _, leaf := range kit.PhiLeaves(v) {
+			var lk ssa.Value = leaf
+			if e, ok := leaf.(*ssa.Extract); ok {
+				lk = e.Tuple
+			}
+			switch x := lk.(type) {
+			case *ssa.Lookup:
+				for _, l2 := range kit.PhiLeaves(x.X) {
+					if f, _ := kit.LoadedField(l2); f != nil {
+						for _, i := range idx {
+							if i == f {
+								return true
+							}
+						}
+					}
+				}
+			case *ssa.Next:
+				return true
+			}
+		}
+		return false
+	}
+	present := func(site ssa.CallInstruction, arg ssa.Value) bool {
+		for _, g := range kit.GuardsOf(site) {
+			b, ok := g.Cond.(*ssa.BinOp)
+			if !ok || (b.Op != token.EQL && b.Op != token.NEQ) || (b.Op == token.EQL) != g.Polarity {
+				continue
+			}
+			if (b.X == arg && isIndexEntry(b.Y)) || (b.Y == arg && isIndexEntry(b.X)) {
+				return true
+			}
+		}
+		return false
+	}
+	seen := map[helper]bool{}
+	reported := map[string]bool{}
+	n := 0
+	for depth := 0; len(work) > 0 && depth < 50; depth++ {
+		h := work[0]
+		work = work[1:]
+		if seen[h] || h.param < 0 {
+			continue
+		}
+		seen[h] = true
+		inside := 0
+		for _, site := range p.StaticCallers(h.fn) {
+			caller := kit.TopLevel(site.Parent())
+			if !methods[caller] || h.param >= len(site.Common().Args) {
+				continue
+			}
+			inside++
+			arg := site.Common().Args[h.param]
+			n++
+			switch {
+			case isIndexEntry(arg) || present(site, arg):
+			default:
+				if pa, ok := arg.(*ssa.Parameter); ok {
+					work = append(work, helper{site.Parent(), c39ParamIndex(site.Parent(), pa)})
+					continue
+				}
+				key := kit.FuncName(site.Parent()) + " decrements " + dec[h.fn] + " only for a present entry"
+				if !reported[key] {
+					reported[key] = true
+					r.Violation("C17.R2", key, p.Pos(site.Pos()), "the entry handed to %s (which removes it from the indices and decrements %s) is not known to be in the table", kit.FuncName(h.fn), dec[h.fn])
+				}
+			}
+		}
+		if inside == 0 {
+			// an API method: whatever entry its callers hold is removed and un-counted
+			key := kit.FuncName(h.fn) + " decrements " + dec[h.fn] + " only for a present entry"
+			if !reported[key] {
+				reported[key] = true
+				r.Violation("C17.R2", key, p.Pos(h.fn.Pos()), "%s removes the entry it is handed from the indices (a no-op when the entry is already gone) and decrements the derived counter %s unconditionally: a repeated removal under-counts a peer, and a clean-up that consults %s first then skips entries that are still in the table", kit.FuncName(h.fn), dec[h.fn], dec[h.fn])
+			}
+		}
+	}
+	r.Count("derived_counter_decrement_call_sites", n)
+	if len(reported) == 0 {
+		r.OK("C17.R2", "relayTable derived counters decremented only for present entries", p.Pos(rt.Obj().Pos()), "%d call site(s) of unindexing helpers, each with a looked-up, ranged or presence-tested entry", n)
+	}
+}
+
 func c17R4Handlers(p *kit.Program, r *kit.Report) {
 	n := 0
 	for _, ev := range c16ResolveTablesQuiet(p) {
